@@ -221,6 +221,7 @@ class Engine:
     def __init__(self, facts, opaque=(), max_depth=40, loop_bound=40, hooks=None):
         self.facts = facts
         self.opaque = set(opaque)
+        self.recursive_calls = []
         self.max_depth = max_depth
         self.loop_bound = loop_bound
         self.log = []
@@ -292,6 +293,8 @@ class Engine:
                 if v[2] != el[1]:
                     raise PathEnd('infeasible', f'downcast {el[1]} of {v[2]}')
                 return v
+            if tag == 'upd' and v[2] == ('v', el[1]):
+                return v[3]
             return ('as', v, el[1])
         if k == 'key':
             if tag == 'map':
@@ -354,7 +357,10 @@ class Engine:
         if k == 'v':
             if tag == 'enum':
                 return self._update(st, v, path[1:], new)
-            raise Unmodelled('store through downcast of symbolic value')
+            # a symbolic value seen as one of its variants (the path has tested the discriminant): the value with that
+            # variant's payload updated
+            old = self.project(st, v, el)
+            return ('upd', v, ('v', el[1]), self._update(st, old, path[1:], new))
         if k == 'key':
             if tag == 'map':
                 items = list(v[2])
@@ -1486,7 +1492,12 @@ class Engine:
                 if isinstance(v, int):
                     d_[nm] = v
             cparams = d_ or None
-        if body is not None and name not in self.opaque and not self.is_opaque(name):
+        recursive = body is not None and any(f_.body.path == name for f_ in st.frames)
+        if recursive:
+            # a function called while it is already running: not inlined again (the analysis would not end); the call stays
+            # an uninterpreted application and is recorded with the conditions it is made under (C07 decides termination)
+            self.recursive_calls.append((name, tuple(self.purify(st, a) for a in args), dict(st.asm), fr.body.path))
+        if body is not None and name not in self.opaque and not self.is_opaque(name) and not recursive:
             depth = len(st.frames)
             if self.use_cache:
                 snap = self.reachable_snapshot(st, args)
